@@ -30,6 +30,44 @@ CLAIMED = {
               "the serde rows are a syntactic fingerprint of the macro body (theorem is about contents = input only)."),
         technique='Lean 4 proof (induction over the byte list on top of a 256-case kernel-evaluated decision procedure) over a chain translated from the source; differential correspondence run',
     ),
+    'C09': dict(
+        category='proof',
+        text=("Lean theorems by structural induction over the adapter tree (any nesting depth, any fragmentation incl. empty chunks, any "
+              "contents and arguments): remaining = length of the denoted sequence, chunk is a prefix that is empty only at the end, advance "
+              "removes exactly n bytes or panics, chunks_vectored count/prefix/non-empty laws (incl. Take's 16-slot scratch array and Chain), "
+              "copy_to_slice / try_copy_to_slice / copy_to_bytes (default and the four overrides) / IntoIter return exactly the next bytes; "
+              "the loop fuel n+1 always suffices (termination). Model hand-transliterated from src/buf/*.rs and tied on every run by T2: "
+              "~100k (tree, script) cases on the real crate, results AND full adapter-tree state compared after every op, the property "
+              "predicates evaluated on the implementation's own observations."),
+        design='§7 C09, §3 M2, §4.2',
+        note=("Trusted: Lean kernel; the hand transliteration (tied by T2 only); harness tree builder (Box<dyn Buf> nodes) and judge parser; "
+              "VecDeque::as_slices front-first; sizes < 2^64 (wf)."),
+        technique='Lean 4 proof by structural induction over a hand-written executable model; differential correspondence check (lock-step judge)',
+    ),
+    'C10': dict(
+        category='proof',
+        text=("Lean theorems get_ok / get_short / get_too_wide / try_eq_get for every row accepted by the decision procedure rowOK and every "
+              "well-formed adapter tree: value = decode(next size bytes) chosen from the method name (two's complement, any endian, nbytes "
+              "0..8), cursor advances by exactly size, Err{requested,available} / panic on shortfall, independent of chunking (fast path = "
+              "slow path) and of the build profile. The 76-row getter table, sign_extend form, macro-arm texts and the deref forwarders are "
+              "regenerated from src/buf/buf_impl.rs on every run (T1) and certified by `decide`; T2 runs every method x sign-bit patterns x "
+              "every chunk-boundary position x every shortfall x every implementor/wrapper in debug and release."),
+        design='§7 C10, §3 M3, §4.1',
+        note=("Trusted: Lean kernel; T1 extractor (name -> Spec, body -> Body with inlining; fail-closed); macro-arm semantics hand-written "
+              "(text fingerprint + T2); little-endian host for _ne; bytes < 256 hypothesis; floats as bit patterns."),
+        technique='Lean 4 proof (verified decision procedure + chunk-independence lemma over the adapter-tree model) + per-run decide certificate over a table translated from the source; differential correspondence run',
+    ),
+    'C12': dict(
+        category='proof',
+        text=("Read side: Lean theorems take_den, chain_den, {take,chain}_{advance,copyToSlice,copyToBytes}_inner (after consuming n bytes "
+              "through the adapter the limit dropped by n and the inner buffers — arbitrary trees — advanced by exactly n / min(n,|a|) and the "
+              "rest), readerRead_spec, readerFillBuf_spec. T2: the judge checks limit()/get_ref()/first_ref()/last_ref() after every "
+              "consuming op on Take/Chain roots, Reader read/fill_buf/consume, set_limit in mid-stream. Write side (Limit, Chain as BufMut, "
+              "Writer) is covered with C11's model once built; until then this claim is partial (read side only)."),
+        design='§7 C12, §3 M2',
+        note="Trusted: as C09. Partial: write-side adapters (Limit, Writer, Chain as BufMut) not yet in the model.",
+        technique='Lean 4 proof by structural induction over a hand-written executable model; differential correspondence check (lock-step judge)',
+    ),
 }
 
 NOT_YET = "not claimed yet: machinery for this property is still under construction (build order in DESIGN.md §10)"
